@@ -26,7 +26,7 @@ T1 == << "local", "a", ",", "b", "=", "1", ",", "'x'", ";",
          "a", "=", "#", "t", "..", "[[x]]",
          "return", "a", ",", "(", "b", ")" >>
 T2 == << "return", "not", "a", "==", "b", ",", "a", "and", "b", "or", "c", ",", "a", "^", "-", "b", ",",
-         "(", "a", ")", "(", "b", ")", "[", "c", "]", ".", "d", ",",
+         "(", "a", ")", "(", "b", ")", "[", "c", "]", ".", "d", ",", "(", "(", "a", ")", ")", ",", "(", "(", "(", "a", ")", ")", ")", "(", ")", ",",
          "0x1F", "+", "1e3", "*", ".5", "/", "2", "%", "3", ",", "a", "~=", "b", ",", "a", "<=", "b", ",", "a", ">", "b", ",",
          "function", "(", ")", "end", ",", "{", "[", "'k'", "]", "=", "v", "}", ",",
          "nil", ",", "true", ",", "false", ",", "'\\n\\065'", ",", "[==[ ]] ]==]", ",", "..." >>
